@@ -221,6 +221,15 @@ impl Report {
         let mut known_observed = Vec::new();
         let mut lines = Vec::new();
         let _ = std::fs::create_dir_all(format!("{verif_dir}/replays"));
+        // replay files of earlier runs of this property are stale now
+        if let Ok(rd) = std::fs::read_dir(format!("{verif_dir}/replays")) {
+            for e in rd.flatten() {
+                let n = e.file_name().to_string_lossy().to_string();
+                if n.starts_with(&format!("{}-", self.property)) && n.ends_with(".json") {
+                    let _ = std::fs::remove_file(e.path());
+                }
+            }
+        }
         for (sig, v) in &violations {
             if let Some(k) = known
                 .iter()
